@@ -44,15 +44,48 @@ def literal_tokens(path):
         if isinstance(n, ast.Constant) and isinstance(n.value, str) and id(n) not in doc:
             toks |= set(re.findall(r"[A-Za-z_~][A-Za-z0-9_]*", n.value))
     return toks
+# classes whose members a module reads from the program's own tables rather than naming them in a literal: all of their
+# members are frozen for that module (C19 binds a C struct field to its forwarder by the field's name)
+WHOLE_RECORDS = {"C19": ["SMockSupport_c", "SMockExpectedCall_c", "SMockActualCall_c", "SMockValue_c", "SMockValue_c::(anonymous)"]}
 optional = set(json.load(open("rules/optional_names.json"))) if os.path.exists("rules/optional_names.json") else set()
 members, functions = {}, {}
+qn2fn = {}
+for g in prog.functions.values():
+    qn2fn.setdefault(g.qn, g)
+
+
+def relevant(mod, toks):
+    """what the module is about, read off the functions it analysed on the reference tree (evidence/<mod>.json): the
+    data members those functions access and the functions they call (plus themselves), by qualified name"""
+    ev = json.load(open("evidence/%s.json" % mod))
+    mem, fun = set(), set()
+    for q in ev["coverage"].get("functions_analysed", []):
+        for g in [x for x in prog.functions.values() if x.qn == q]:
+            fun.add(g.qn)
+            for n in g.walk():
+                if n["k"] == "MemberExpr" and n.get("qn") and "::" in n["qn"]:
+                    c, f = n["qn"].rsplit("::", 1)
+                    mem.add((c, f))
+            for c in g.calls():
+                nm = prog.callee_name(g, c)
+                if nm:
+                    fun.add(nm)
+            for i_ in g.d.get("inits", []) or []:
+                if i_.get("field") and g.cls:
+                    mem.add((g.cls, i_["field"]))
+    return mem, fun
+
+
 for i in range(1, 21):
     mod = "C%02d" % i
     toks = set()
     for m in sources(mod):
         toks |= literal_tokens("rules/%s.py" % m)
-    members[mod] = sorted([c, f] for f in toks & set(fields) for c in fields[f])
-    functions[mod] = sorted(q for n in toks & set(funcs) for q in funcs[n] if q not in optional)
+    rel_m, rel_f = relevant(mod, toks)
+    members[mod] = sorted([c, f] for f in toks & set(fields) for c in fields[f] if (c, f) in rel_m)
+    for rec in WHOLE_RECORDS.get(mod, []):
+        members[mod] = sorted(members[mod] + [[rec, fl["name"]] for fl in prog.records.get(rec, {}).get("fields", []) if [rec, fl["name"]] not in members[mod]])
+    functions[mod] = sorted(q for n in toks & set(funcs) for q in funcs[n] if q not in optional and q in rel_f)
     print(mod, len(members[mod]), "members,", len(functions[mod]), "functions")
 json.dump(members, open("rules/members.json", "w"), indent=0, sort_keys=True)
 json.dump(functions, open("rules/functions.json", "w"), indent=0, sort_keys=True)
